@@ -43,6 +43,8 @@ def from_py(o):
         return VInt(o)
     if isinstance(o, str):
         return VStr(o)
+    if isinstance(o, bytes):
+        return VStr(o.decode('latin-1'), b=True)
     return VPy(o)
 
 
@@ -193,9 +195,9 @@ class Evaluator:
 
     def ev_Constant(self, st, e):
         v = e.value
-        if v is None or isinstance(v, (bool, int, str)):
+        if v is None or isinstance(v, (bool, int, str, bytes)):
             return from_py(v)
-        if isinstance(v, (bytes, float)):
+        if isinstance(v, float):
             return VPy(v)
         raise OutOfSubset('constant %r' % (v,))
 
